@@ -291,6 +291,42 @@ def unit_counts(U):
                 ok = len(sel) == 2 and " ".join(str(sel[0][1]).split()) == " ".join(str(sel[1][1]).split())
             U.prove("C11.count.after_delete[%s]#p%d" % (how, p.index), "count_features_of_type asks the table again after a delete() on the same object (one count query per call; nothing remembered across a change)",
                     [], z3.BoolVal(bool(ok)), {}, replay=replay3)
+    # every iteration hands out NEW Feature objects built from the rows: what a caller does to a Feature it was given
+    # (without writing it back) cannot change what the next query returns
+    for entry in ("all_features", "features_of_type"):
+        def run5(ctx, entry=entry):
+            cols = Q.FEATURE_COLS + ["file_order"]
+            vals = ["g1", "chr1", "src", "gene", 10, 20, ".", "+", ".", '{"ID": ["g1"], "Note": ["n"]}', "[]", 585, 1]
+            row = ghostdb.GhostRow(cols, vals)
+            db = blank_db(ghostdb.GhostConn(result_for=lambda cur, kind, q, a: [row]))
+            args = ["gene"] if entry == "features_of_type" else []
+            out1 = list(it.call(getattr(I.FeatureDB, entry), [db] + args, {}))
+            out2 = list(it.call(getattr(I.FeatureDB, entry), [db] + args, {}))
+            return out1, out2
+
+        def replay5(m, entry=entry):
+            import gffutils.feature as F
+            fs = []
+            for i in range(3):
+                f = F.Feature(seqid="c", featuretype="gene", strand="+", start=10 * i + 1, end=10 * i + 5, attributes={"ID": ["g%d" % i]})
+                f.id = "g%d" % i
+                fs.append(f)
+            db = native_db(fs)
+            q = (lambda: db.features_of_type("gene", order_by="start")) if entry == "features_of_type" else (lambda: db.all_features(order_by="start"))
+            want = [(f.id, f.featuretype, f.strand, f.start) for f in q()]
+            for f in q():
+                f.featuretype, f.strand, f.start = "pseudogene", "-", 1000 - f.start
+                f.attributes["Note"] = ["edited by the caller, never written back"]
+            got = [(f.id, f.featuretype, f.strand, f.start) for f in q()]
+            return {"inputs": "iterate %s(); edit the Features handed out (no update()); iterate again on the same FeatureDB" % entry, "expected": want, "observed": got, "violates": got != want}
+        for p in U.explore(run5, it):
+            ok = p.kind == "return"
+            if ok:
+                out1, out2 = p.value
+                ok = (len(out1) == 1 and len(out2) == 1 and out1[0] is not out2[0] and out1[0].attributes is not out2[0].attributes
+                      and getattr(out1[0].attributes, "_d", 1) is not getattr(out2[0].attributes, "_d", 2) and len(ghostdb.executes(p.ctx)) == 2)
+            U.prove("C11.fresh_objects[%s]#p%d" % (entry, p.index), "two iterations query the table twice and hand out distinct Feature objects (no Feature or attribute mapping shared between them)",
+                    [], z3.BoolVal(bool(ok)), {}, replay=replay5)
     for meth, col in (("featuretypes", "featuretype"), ("seqids", "seqid")):
         def run2(ctx, meth=meth):
             db = blank_db()
